@@ -1,5 +1,5 @@
 SPECIFICATION Spec
-CONSTANT Dev = "none"
+CONSTANT Dev = "mean_on_integers"
 INVARIANT FusionSound
 INVARIANT LpNormSound
 INVARIANT MeanSound
